@@ -299,8 +299,13 @@ class CircuitTemplate(AbstractBaseTemplate):
 
         # updates to edge variable values
         for source, target, edge_dict in edge_vars:
-            _, _, _, base_dict = self.get_edge(source, target)
-            base_dict.update(edge_dict)
+            # edge tuples and their attribute dictionaries are shared with the templates this one was derived from:
+            # replace the edge by an updated copy instead of writing into the shared dictionary
+            old_edge = self.get_edge(source, target)
+            s, t, template, base_dict = old_edge
+            new_edge = (s, t, template, {**base_dict, **edge_dict})
+            self.edges = [new_edge if edge is old_edge else edge for edge in self.edges]
+            self._edge_map[(source, target, 0)] = new_edge
 
         return self
 
